@@ -4,8 +4,10 @@
      p T <op>     append <op> to the program of thread T
      s T          one scheduler step of thread T (no effect once T has finished);
                   after the last 's' every thread runs to completion, thread 0 first
-   <op> ::= I k v | R k | T <pred> n | P k v k v ... | G k | H k | L | E
-            insert   remove  retain       replace         get contains len iterate
+   <op> ::= I k v | R k | T <pred> n | P k v k v ... | G k | H k | L | E | Z | N k v
+            insert   remove  retain       replace         get contains len iterate is_empty entry(k).or_insert_with(|| v)
+   (N takes up to three steps: the lookup - done if occupied -, then parked in the default function; insert's load, parked
+    in insert's rcu closure; the compare-and-swap)
    <pred> ::= kle | kgt | kne | vle | vgt      (keep entries with key<=n, key>n, key<>n, value<=n, value>n)
    Observation: "T<t> <ret>..." per thread, "F <final contents sorted>", "x<failed CAS attempts>".
    Shared with eng_c18seq.ml: parse_op, show_ret, show_vec. *)
@@ -39,6 +41,8 @@ let parse_op toks =
   | ["H"; k] -> FHas (num k)
   | ["L"] -> FLen
   | ["E"] -> FIter
+  | ["Z"] -> FEmpty
+  | ["N"; k; v] -> FEntry (num k, num v)
   | _ -> failwith ("bad op: " ^ join " " toks)
 
 let show_vec (l : fvec) =
@@ -52,6 +56,7 @@ let show_ret = function
   | RBool b -> if b then "b1" else "b0"
   | RNum n -> "l" ^ string_of_int (int_of_n n)
   | RList l -> show_vec l
+  | RVal v -> "v" ^ string_of_int (int_of_n v)
 
 (* Which remove() the rotonda tree has: [true] = the result variable is reset
    inside the rcu closure (the repair, see known_findings/C18.json); [false] =
@@ -95,7 +100,7 @@ let open_retries obs =
 
 let run_case (line : string) : string =
   let (init, progs, sched, n) = parse_case line in
-  let obs fixed = observe n (full_run fixed init progs (Stdlib.List.map nat_of_int sched)) in
-  let spec = obs true in
-  let model = if code_is_fixed then spec else obs false in
+  let obs cv = observe n (full_run cv init progs (Stdlib.List.map nat_of_int sched)) in
+  let spec = obs VFixed in
+  let model = if code_is_fixed then spec else obs VAsWas in
   model ^ " ||| " ^ open_retries spec
